@@ -11,6 +11,8 @@ import TempestVerif.Sc
              cov[k] = np.dot(weighted_resp[:, k] * diff.T, diff);  cov[k] /= np.sum(weighted_resp[:, k]) + 1e-10
       diag:  cov[k] = np.sum(weighted_resp[:, k, None] * diff**2, axis=0);  cov[k] /= np.sum(weighted_resp[:, k]) + 1e-10
       e-step: responsibilities /= np.sum(responsibilities, axis=1, keepdims=True) + 1e-10
+      init:   log_resp[:, k] = -0.5 * distances;  log_resp -= np.max(log_resp, axis=1, keepdims=True)
+              responsibilities = np.exp(log_resp);  responsibilities /= np.sum(responsibilities, axis=1, keepdims=True)
 
   Data layout: `X : List (List α)` is n points × d, `R` is n × K, `s` has n entries.
   `tiny` (= `np.finfo(float).tiny`) and `eps` (= 1e-10) are parameters.
@@ -101,6 +103,37 @@ def estepNormalise (eps : α) (P : List (List α)) : List (List α) :=
   P.map fun row =>
     let t := Sc.add (Sc.sum row) eps
     row.map fun p => Sc.div p t
+
+end Model.EM
+
+namespace Model.EM
+variable {α : Type} [ScT α]
+
+/-- `np.max(row)` of the non-empty row `x :: xs` (NaN-free) -/
+def rowMax (x : α) (xs : List α) : α := xs.foldl Sc.max x
+
+/-- `_initialize_parameters`, one row of `log_resp[:, k] = -0.5 * |x_i - centre_k|²`:
+    `log_resp -= np.max(log_resp, axis=1, keepdims=True); responsibilities = np.exp(log_resp)` -/
+def shiftExp : List α → List α
+  | [] => []
+  | x :: xs => (x :: xs).map fun l => ScT.exp (Sc.sub l (rowMax x xs))
+
+/-- `responsibilities /= np.sum(responsibilities, axis=1, keepdims=True)` after the max-shift; the input is the
+    matrix `L[i][k] = -0.5 * |x_i - centre_k|²` -/
+def initNormalise (L : List (List α)) : List (List α) :=
+  L.map fun row =>
+    let e := shiftExp row
+    let t := Sc.sum e
+    e.map fun p => Sc.div p t
+
+/-- what `_initialize_parameters` returns once the centres are drawn: the M-step on the normalised soft assignment -/
+def initParams (tiny eps : α) (d K : Nat) (X L : List (List α)) (s : List α) : MStep α :=
+  mstep tiny eps d K X (initNormalise L) s
+
+end Model.EM
+
+namespace Model.EM
+variable {α : Type} [Sc α]
 
 /-- `np.repeat(l, c, axis=0)`: entry i repeated `c_i` times -/
 def replicateBy {β : Type} (c : List Nat) (l : List β) : List β :=
